@@ -45,6 +45,56 @@ var verifSkels = []string{
 	"BvAs",  // 28 vector(k) op agg(sel)
 }
 
+// verifMayGuarantee: some construct below n makes pint "guarantee" label l in the concrete shape: a positive matcher
+// with a non-empty literal or a regexp, the value label of count_values, the destination of label_replace.
+// (Used by known-finding signatures only.)
+func verifMayGuarantee(n *vNode, l int) bool {
+	if n == nil {
+		return false
+	}
+	for _, m := range n.ms {
+		if m.clab == l && ((m.ctyp == 0 && !m.cempty) || m.ctyp == 2) {
+			return true
+		}
+	}
+	if n.kind == 'A' && n.aop == vAggCountV && n.cvl == l {
+		return true
+	}
+	if n.kind == 'F' && n.fn == vFnReplace && n.dst == l {
+		return true
+	}
+	return verifMayGuarantee(n.l, l) || verifMayGuarantee(n.r, l)
+}
+
+// Known finding F2 (DESIGN.md section 6): canJoin's default branch walks the guaranteed labels of the side it is
+// given without removing the labels listed in ignoring(...); parseBinOps removes them beforehand only for
+// one-to-one matching. Signature: ignoring(...) with group_left/group_right or a set operator, and the list names
+// a label that the side handed to canJoin can guarantee.
+func verifSigF2(root *vNode) bool {
+	if !root.vectorBinary() || root.con || (root.card == vCardOne && root.op < vOpAnd) {
+		return false
+	}
+	side := root.l
+	if root.card == vCardRight {
+		side = root.r
+	}
+	for l := 0; l < verifNL; l++ {
+		if root.cml[l] && verifMayGuarantee(side, l) {
+			return true
+		}
+	}
+	return false
+}
+
+// verifDefine names a term of the reference by a fresh solver variable that is asserted equal to it once. The
+// claims of the (many) shapes then only mention the variable, so the solver keeps the reference formula
+// internalised instead of re-reading it for every query. Sound: a definition of a fresh variable constrains nothing.
+func verifDefine(tag string, v bool) bool {
+	d := verifBool(tag)
+	verifAssume(d == v)
+	return d
+}
+
 func verifEmpty(v []vSeries) bool { return !verifAnyValid(v) }
 
 // one source per operand is what this harness attributes flags to
@@ -65,8 +115,11 @@ type vDeadCheck struct {
 	db      *vDB
 	ok      bool
 	out, lv []vSeries
-	empty   bool
-	nflag   int
+	// the claims, as defined solver variables
+	empty      bool // the root operation returns nothing
+	unlessSame bool // `unless`: the right side removes nothing
+	orNone     bool // `or`: the right side adds nothing
+	nflag      int
 }
 
 // shape k: run pint on the concrete shape and check every flag raised at the root
@@ -75,6 +128,7 @@ func (c *vDeadCheck) shape(k int) {
 	if verifNativeOnly() {
 		verifCurrentDesc = verifDescribe(root, c.db)
 	}
+	verifSetSig("C12-ignoring-group-guaranteed", verifSigF2(root))
 	pre := verifAnd(verifIsShape(root), c.ok)
 	claim := func(flag bool, holds bool, msg string) {
 		if flag {
@@ -107,18 +161,10 @@ func (c *vDeadCheck) shape(k int) {
 			claim(j.IsDead && !rOwn, c.empty, "right side of `and` flagged dead: the operation returns nothing")
 		case vOpUnless:
 			j := s.Unless[len(s.Unless)-1].Src
-			same := true
-			for i := range c.lv {
-				same = verifAnd(same, c.out[i].valid == c.lv[i].valid)
-			}
-			claim(j.IsDead && !rOwn, same, "right side of `unless` flagged dead: it removes nothing from the left side")
+			claim(j.IsDead && !rOwn, c.unlessSame, "right side of `unless` flagged dead: it removes nothing from the left side")
 		default:
 			j := src[1]
-			none := true
-			for i := len(c.lv); i < len(c.out); i++ {
-				none = verifAnd(none, !c.out[i].valid)
-			}
-			claim(j.IsDead && !rOwn, none, "right side of `or` flagged dead: it adds nothing to the result")
+			claim(j.IsDead && !rOwn, c.orNone, "right side of `or` flagged dead: it adds nothing to the result")
 		}
 	default:
 		s := src[0]
@@ -139,7 +185,7 @@ func VerifHarness_Dead() {
 	cc := &vChooser{}
 	k := 0
 	nflag := 0
-	for {
+	for class := 0; ; class++ {
 		b := &vBuilder{skel: verifSkels[verifParam("skel")], nm: verifParam("nm"), cc: cc}
 		root := b.node()
 		// ---- reference evaluation of this operator-class assignment (symbolic description, symbolic database)
@@ -149,8 +195,23 @@ func VerifHarness_Dead() {
 			c.lv = ev.eval(root.l) // the evaluator is deterministic: same terms as inside eval(root)
 		}
 		c.out = ev.eval(root)
-		c.ok = ev.ok
-		c.empty = verifEmpty(c.out)
+		dt := "def" + verifItoa(class) + "."
+		c.ok = verifDefine(dt+"ok", ev.ok)
+		c.empty = verifDefine(dt+"empty", verifEmpty(c.out))
+		if root.op == vOpUnless {
+			same := true
+			for i := range c.lv {
+				same = verifAnd(same, c.out[i].valid == c.lv[i].valid)
+			}
+			c.unlessSame = verifDefine(dt+"same", same)
+		}
+		if root.op == vOpOr {
+			none := true
+			for i := len(c.lv); i < len(c.out); i++ {
+				none = verifAnd(none, !c.out[i].valid)
+			}
+			c.orNone = verifDefine(dt+"none", none)
+		}
 		// ---- every shape
 		sh := &vShape{sc: &vChooser{}, ulist: verifParam("ulist"), ulab: verifParam("ulab")}
 		for {
